@@ -1182,13 +1182,20 @@ impl<'a> Exec<'a> {
                     return self.skip(i, op);
                 };
                 let stm = self.meta(Kind::ClientLogin, &stt.canon).cloned();
+                let ctx_ok = ctx.as_ref().map_or(true, |x| x.0.len() <= 65535);
                 let sizes_ok = pw.0.len() <= 65535
-                    && ctx.as_ref().map_or(true, |x| x.0.len() <= 65535)
                     && ids.client.as_ref().map_or(true, |x| x.0.len() <= 65535)
                     && ids.server.as_ref().map_or(true, |x| x.0.len() <= 65535);
                 let (p, which) = match &stm {
                     Some(Meta::ClientLogin { pw_start, req_canon }) if sizes_ok => {
-                        self.predict_client(pw_start, &pw.0, req_canon, &rs, ctx, ids, ksf)
+                        let (p, which) = self.predict_client(pw_start, &pw.0, req_canon, &rs, ctx, ids, ksf);
+                        match (&p, ctx_ok) {
+                            (_, true) => (p, which),
+                            // C02: a wrong password (or no password file) is reported as such for
+                            // *all* contexts, also one that could never be encoded
+                            (Predict::Reject { invalid_login: true, .. }, false) => (p, None),
+                            (_, false) => (Predict::Reject { invalid_login: false, why: "a parameter is longer than 65535 bytes" }, None),
+                        }
                     }
                     // an unencodable parameter can never be part of an accepted login
                     Some(Meta::ClientLogin { .. }) => (
